@@ -606,13 +606,23 @@ Section Build.
     rewrite H. cbn. lia.
   Qed.
 
+  Lemma ins_node_len_length x l : length (ins_node_len x l) = S (length l).
+  Proof. induction l as [|y l IH]; cbn; [reflexivity|]. destruct (name_len_leb (n_name y) (n_name x)); cbn; auto. Qed.
+  Lemma sort_nodes_len_length l : length (sort_nodes_len l) = length l.
+  Proof.
+    unfold sort_nodes_len.
+    assert (H : forall acc, length (fold_left (fun acc x => ins_node_len x acc) l acc) = length l + length acc).
+    { induction l as [|x l IH]; intro acc; cbn; [reflexivity|]. rewrite IH, ins_node_len_length. lia. }
+    rewrite H. cbn. lia.
+  Qed.
+
   Definition periph_cond (x : name) : bool :=
     Nat.eqb (out_degree (build s) x) 1 && Nat.eqb (in_degree (build s) x) 1
     && has_edge (build s) x NCentral && has_edge (build s) NCentral x.
 
   Lemma find_peripherals_build : length (find_peripherals (build s)) = m.
   Proof.
-    unfold find_peripherals. rewrite central_build, n_name_cnode, sort_nodes_length.
+    unfold find_peripherals. rewrite central_build, n_name_cnode, sort_nodes_len_length.
     change (length (filter (fun nd => periph_cond (n_name nd)) (g_nodes (build s))) = m).
     cbn [g_nodes build]. rewrite (filter_nodes periph_cond).
     rewrite (tnodes_none periph_cond).
